@@ -191,10 +191,17 @@ theorem msgHeader_eq_a (typ : Int) :
   simp only [Int.ofNat_eq_natCast]
   omega
 
+/-- the same with the operands of `|` swapped (Go's `|` commutes; a refactoring may swap them) -/
+theorem msgHeader_eq_a' (typ : Int) :
+    bor .u32 (wrap .u32 (band .i32 typ 65535)) 2147549184 = (Wire.msgHeader typ : Nat) := by
+  have h : bor .u32 (wrap .u32 (band .i32 typ 65535)) 2147549184 = bor .u32 2147549184 (wrap .u32 (band .i32 typ 65535)) := by
+    unfold bor; rw [Nat.or_comm]
+  rw [h]; exact msgHeader_eq_a typ
+
 theorem Binary_AppendMessageBegin_eq (buf name : Bytes) (typ seq : Int) :
     Funcs.Binary_AppendMessageBegin buf name typ seq = .ok (Wire.aMessageBegin buf name typ seq) := by
   unfold Funcs.Binary_AppendMessageBegin Wire.aMessageBegin
-  simp [msgHeader_eq_a, thrift_appendUint32_eq, Binary_AppendString_eq, Binary_AppendI32_eq]
+  simp [msgHeader_eq_a, msgHeader_eq_a', thrift_appendUint32_eq, Binary_AppendString_eq, Binary_AppendI32_eq]
 
 /-! ## length functions: against `Wire.length` / `Wire.lenMessageBegin`.  Go `int` is 64 bits: `4 + len(v)` is exact for
     `len(v) < 2^62` (any real slice) -/
